@@ -20,9 +20,9 @@ def pool_batch(acc, batch, prop=None, bound=1):
             for p, what, detail in vs:
                 if p != prop:
                     continue
-                acc.violation(sig=dict(what=what, via=sc.get("via"), extras=sorted(k for k in sc if k in ("start_fail", "log_fail", "kill_race", "payloads"))),
+                acc.violation(sig=dict(what=what, via=sc.get("via"), mseq=sc.get("mseq"), extras=sorted(k for k in sc if k in ("start_fail", "log_fail", "kill_race", "payloads"))),
                               case=dict(sc=sc, choices=[pt[1] for pt in points]), observed=detail,
-                              msg=f"{what}: scenario cores={sc['cores']} tasks={[(t['deps'], t.get('time_limit')) for t in sc['tasks']]} ops={sc['ops']} trace={ex.trace}: {json.dumps(detail, default=str)[:300]}")
+                              msg=f"{what}: scenario cores={sc['cores']} tasks={[(t['deps'], t.get('time_limit')) for t in sc['tasks']]} ops={sc['ops'] or sc.get('mseq')} trace={ex.trace}: {json.dumps(detail, default=str)[:300]}")
 
         poolx.explore(sc, scratch, bound, stats, on_exec)
         acc.extra["executions"] += stats["executions"]
@@ -75,6 +75,9 @@ def replay_pool(case, prop):
     for t in sc["tasks"]:
         if not t.get("extra_deps"):
             t.pop("extra_deps", None)
+    if sc.get("clients"):
+        for c in sc["clients"]:
+            c["ops"] = [tuple(o[:1]) + ((o[1].encode("latin1"),) if o[0] == "raw" and isinstance(o[1], str) else tuple(o[1:])) for o in c["ops"]]
     ex, points = poolx.run_one(sc, worker_scratch("pool"), list(case["choices"]))
     try:
         vs = ex.violations + ex.final_checks()
